@@ -22,7 +22,7 @@ def check(run):
         'per configuration (before Refresh / sync / async logger, also with a second reference to a rolling-file appender, level ranges with and without upper bounds over built-in and custom levels, an appender reference with its own '
         'range, all 8 hook subsets): 14 fixed-level entry points + Record at every registered code and its neighbours, each call with its own context; observable per call: '
         'generator invocations, invocations of each hook and whether they got the caller\'s context, whether the event reached the sink, and whether it carries the hook time, '
-        'the context string and the context fields ahead of the call\'s fields; non-trivial = some calls emitted and some suppressed', keep_empty=False)
+        'the context string and the context fields (one of them, on every third call, under the key of one of the call\'s own fields) ahead of the call\'s fields; non-trivial = some calls emitted and some suppressed', keep_empty=False)
     run.coverage['calls_per_case'] = 50
     return 'see streams'
 
